@@ -745,3 +745,7 @@ for _p in ("C06", "C10", "C05"):
 SPECS["C06"]["bounded"].append(("contracts.e2e_names", "e2e:roland_names"))
 SPECS["C06"]["level_text"] += ("; RolandS7xxImage.set_routines installs the naming table on every volume, the appended orphan pseudo-volume included; BOUNDED: Roland images with duplicate / unsafe / "
                                "path-like performance names in volumes and among the orphans")
+
+# C18: the encoder at string level (byte strings of 0..3 characters)
+SPECS["C18"]["contracts"] += [f"smpl_extract.akai.akai_string:char_ascii_to_akai[bytes,len={k}]" for k in (0, 1, 2, 3)]
+SPECS["C18"]["level_text"] += "; char_ascii_to_akai converts a byte string character by character through the table and rejects the whole string when ONE byte is outside the 41 (lengths 0..3)"
